@@ -761,8 +761,15 @@ fn bvm_history_cases(r: &mut Rng, t: Tier, n_cases: usize, out: &mut Vec<Case>) 
                 9 => {
                     let k = r.range(0, 40) as usize;
                     let bs: Vec<u64> = (0..k).map(|_| r.below(2)).collect();
-                    c.l(format!("op 0 extend_bools {}", join(&bs)));
-                    len += k;
+                    if r.chance(1, 3) {
+                        // non-fused source: None after kk items
+                        let kk = r.below(k as u64 + 1) as usize;
+                        c.l(format!("op 0 extend_bools_nf {} {}", kk, join(&bs)).trim_end().to_string());
+                        len += kk;
+                    } else {
+                        c.l(format!("op 0 extend_bools {}", join(&bs)));
+                        len += k;
+                    }
                 }
                 10 => {
                     let k = r.range(0, 6) as usize;
@@ -1138,6 +1145,9 @@ fn qv_path_cases(r: &mut Rng, t: Tier, n_cases: usize, space: bool, out: &mut Ve
             format!("mk 8 rsq:frombuilder {} {}", cfg.0, js),
             format!("mk 9 qwt:iterx {}", js),
             format!("mk 10 qwt:new {}", js),
+            // size hint with a positive lower bound and no upper bound (header of h values + filtered rest)
+            format!("mk 11 qvchain {} {}", *r.pick(&[0usize, 1, 255, 256, 257, 512, 768, 1024, n / 2, n]), js),
+            format!("mk 12 qvchain {} {}", 256 * r.range(0, (n / 256) as u64) as usize, js),
         ];
         for (k, mk) in mks.iter().enumerate() {
             c.l(mk.trim_end().to_string());
@@ -1145,9 +1155,30 @@ fn qv_path_cases(r: &mut Rng, t: Tier, n_cases: usize, space: bool, out: &mut Ve
                 c.l(format!("space {}", k));
             }
         }
-        for k in 1..=5 {
+        for k in [1usize, 2, 3, 4, 5, 11, 12] {
             c.l(format!("eq 0 {}", k));
         }
+        // a source that is not fused: None after k values (not on a line / word boundary, and on one), more
+        // values if polled again — `collect` and `extend` must stop at the first None
+        for (slot, kind) in [(13usize, "qvnf"), (14, "qvnfext")] {
+            let kk = match r.below(4) {
+                0 => r.below(n as u64 + 1) as usize,
+                1 => (128 * r.range(0, (n / 128) as u64) as usize + r.below(128) as usize).min(n),
+                2 => 128 * r.range(0, (n / 128) as u64) as usize,
+                _ => n.saturating_sub(1),
+            };
+            c.l(format!("mk {} {} {} {}", slot, kind, kk, js).trim_end().to_string());
+            c.l(format!("q {} len", slot));
+            c.l(format!("q {} iter", slot));
+            c.l(format!("dump {}", slot));
+            if space {
+                c.l(format!("space {}", slot));
+            }
+        }
+        c.l("dump 11");
+        c.l("dump 12");
+        c.l("q 11 iter");
+        c.l("q 12 iter");
         c.l("eq 6 7");
         c.l("eq 6 8");
         c.l("eq 9 10");
@@ -1758,6 +1789,26 @@ pub fn cases(prop: &str, t: Tier, seed: u64) -> Vec<Case> {
                 }
                 out.push(c);
             }
+            // stand-alone PrefixCode values (public struct, public fields): every (content, len) pair round-trips
+            let mut c = Case::new("prefixcode");
+            c.tag("prefixcode");
+            c.nontrivial = true;
+            c.l("cfg 256 0 8 * u8");
+            for _ in 0..scale(t, 30, 200) {
+                let k = r.range(0, 12) as usize;
+                let mut v: Vec<u64> = vec![];
+                for _ in 0..k {
+                    v.push(match r.below(4) {
+                        0 => r.next() & 0xFFFF_FFFF,
+                        1 => 0,
+                        2 => 0xFFFF_FFFF,
+                        _ => r.below(70000),
+                    });
+                    v.push(*r.pick(&[0u64, 1, 2, 16, 31, 32, 33, 34, 64, 255, 256, 65536, 0xFFFF_FFFF, 0x8000_0000]));
+                }
+                c.l(format!("u pcrt {}", join(&v)).trim_end().to_string());
+            }
+            out.push(c);
             // empty / default values of every type
             let mut c = Case::new("defaults");
             c.nontrivial = false;
